@@ -39,6 +39,7 @@ type Outcome struct {
 	Steps      int            `json:"steps"`
 	SimNanos   int64          `json:"sim_ns"`
 	Inconcl    bool           `json:"inconclusive,omitempty"`
+	Note       string         `json:"note,omitempty"`
 }
 
 // Engine is implemented once per engine package.
@@ -69,24 +70,25 @@ type Replay struct {
 
 // Result is what one worker process reports.
 type Result struct {
-	Property    string         `json:"property"`
-	Engine      string         `json:"engine"`
-	Variant     string         `json:"variant"`
-	Runs        int            `json:"runs"`
-	NonTrivial  int            `json:"nontrivial"`
-	Inconcl     int            `json:"inconclusive"`
-	Signatures  []string       `json:"signatures"` // distinct signatures of non-trivial runs (hex)
-	Probes      map[string]int `json:"probes"`
-	Faults      map[string]int `json:"faults"`
-	Steps       int64          `json:"steps"`
-	SimNanos    int64          `json:"sim_ns"`
-	WallS       float64        `json:"wall_s"`
-	Violations  []Replay       `json:"violations"`
-	Samples     []any          `json:"samples"`
-	DetChecked  int            `json:"determinism_rechecks"`
-	DetMismatch []string       `json:"determinism_mismatches"`
-	ReplayOK    *bool          `json:"replay_ok,omitempty"`
-	ReplayNote  string         `json:"replay_note,omitempty"`
+	Property     string         `json:"property"`
+	Engine       string         `json:"engine"`
+	Variant      string         `json:"variant"`
+	Runs         int            `json:"runs"`
+	NonTrivial   int            `json:"nontrivial"`
+	Inconcl      int            `json:"inconclusive"`
+	InconclNotes []string       `json:"inconclusive_notes,omitempty"`
+	Signatures   []string       `json:"signatures"` // distinct signatures of non-trivial runs (hex)
+	Probes       map[string]int `json:"probes"`
+	Faults       map[string]int `json:"faults"`
+	Steps        int64          `json:"steps"`
+	SimNanos     int64          `json:"sim_ns"`
+	WallS        float64        `json:"wall_s"`
+	Violations   []Replay       `json:"violations"`
+	Samples      []any          `json:"samples"`
+	DetChecked   int            `json:"determinism_rechecks"`
+	DetMismatch  []string       `json:"determinism_mismatches"`
+	ReplayOK     *bool          `json:"replay_ok,omitempty"`
+	ReplayNote   string         `json:"replay_note,omitempty"`
 }
 
 func SplitMix(x uint64) uint64 {
@@ -219,6 +221,22 @@ func Main(name string, eng Engine) error {
 	return err
 }
 
+// guarded executes one plan under a real-time watchdog: a run that does not
+// come back (a task holding a lock across a yield, an endless loop without a
+// scheduling point) is harness trouble: dump the stacks and exit 3.
+func guarded(eng Engine, plan any, prop string, what string) Outcome {
+	limit := time.Duration(envInt("VERIF_RUN_WATCHDOG_S", 120)) * time.Second
+	tm := time.AfterFunc(limit, func() {
+		buf := make([]byte, 1<<20)
+		n := runtime.Stack(buf, true)
+		pj, _ := json.Marshal(plan)
+		fmt.Fprintf(os.Stderr, "WATCHDOG: run %s exceeded %v\nplan: %s\n%s\n", what, limit, pj, buf[:n])
+		os.Exit(3)
+	})
+	defer tm.Stop()
+	return eng.Execute(plan, prop)
+}
+
 func sameKey(o Outcome, key string) bool { return o.Violation != nil && o.Violation.Key == key }
 
 func doSearch(eng Engine, res *Result, name, prop, tier, variant string) {
@@ -229,7 +247,7 @@ func doSearch(eng Engine, res *Result, name, prop, tier, variant string) {
 	maxRuns := envInt("VERIF_MAXRUNS", 1<<30)
 	maxViol := envInt("VERIF_MAXVIOL", 4)
 	detEvery := envInt("VERIF_DET_EVERY", 50)
-	shrinkBudget := time.Duration(envInt("VERIF_SHRINK_S", 40)) * time.Second
+	shrinkBudget := time.Duration(envInt("VERIF_SHRINK_S", 20)) * time.Second
 	deadline := time.Now().Add(budget)
 	sigs := map[uint64]struct{}{}
 	seenKeys := map[string]bool{}
@@ -249,7 +267,7 @@ func doSearch(eng Engine, res *Result, name, prop, tier, variant string) {
 		idx := uint64(worker + i*workers)
 		rs := RunSeed(base, idx)
 		plan := eng.Generate(rs, prop, tier)
-		o := eng.Execute(plan, prop)
+		o := guarded(eng, plan, prop, fmt.Sprintf("run_seed=%d", rs))
 		res.Runs++
 		res.Steps += int64(o.Steps)
 		res.SimNanos += o.SimNanos
@@ -261,6 +279,9 @@ func doSearch(eng Engine, res *Result, name, prop, tier, variant string) {
 		}
 		if o.Inconcl {
 			res.Inconcl++
+			if len(res.InconclNotes) < 5 {
+				res.InconclNotes = append(res.InconclNotes, fmt.Sprintf("run_seed=%d %s", rs, o.Note))
+			}
 		}
 		if o.NonTrivial {
 			res.NonTrivial++
